@@ -91,13 +91,16 @@ class Check:
         matched = []
         new = []
         for key, rep in sorted(self.viol.items()):
-            if key in open_keys:
-                matched.append(key)
+            base = re.sub(r"@(nodefault|optall|security)$", "", key)   # the same finding seen in another feature configuration
+            if key in open_keys or base in open_keys:
+                if base not in matched:
+                    matched.append(base)
             else:
                 new.append(rep)
         for key in matched:
             print("KNOWN-FINDING: property=%s %s [%s]" % (self.prop, open_keys[key]["what"], key))
-        stale = [k for k in open_keys if k not in self.viol]
+        seen_bases = {re.sub(r"@(nodefault|optall|security)$", "", k) for k in self.viol}
+        stale = [k for k in open_keys if k not in seen_bases]
         for k in stale:
             print("note: known finding %s no longer reproduced by the check (fixed? update known_findings.jsonl)" % k)
         rdir = os.path.join(VERIF, "reports", self.prop)
